@@ -242,10 +242,11 @@ def classify(ix, d1, d2):
         return 'multikey'
     if ix['sparse'] and any(v is None for v in flat):
         return 'sparse-null'
+    # (repaired in the library, known_findings.json has them as "fixed": named only when no class
+    # that is still known explains the duplicate, so that their return is reported - neither is
+    # a known label)
     if any(has_dollar_key(get_raw(d, k)) for k in ix['key'] for d in (d1, d2)):
         return 'operator-like-value'
-    # (repaired with the matcher, known_findings.json `deadend-null` is "fixed": named only when
-    # no class that is still known explains the duplicate, so that its return is reported)
     if any(dead_end(d, k) for k in ix['key'] for d in (d1, d2)):
         return 'deadend-null'
     return 'unique-violated'
@@ -287,8 +288,8 @@ def classify_refused(st, prev_docs, otherwise):
 
 
 def has_dollar_key(v):
-    """an embedded document with a $-prefixed key: the uniqueness look-up reads it as a query
-    operator instead of as data"""
+    """an embedded document with a $-prefixed key (before library commit 9ef8b46 the uniqueness
+    look-up read it as a query operator instead of as data)"""
     if isinstance(v, dict):
         return any(str(k).startswith('$') or has_dollar_key(x) for k, x in v.items())
     if isinstance(v, list):
@@ -414,16 +415,7 @@ def run(ctx, proof, driver_ok):
     if not driver_ok:
         return _run(ctx, proof, driver_ok)
     eng = histcheck.Engine(ctx, sys.modules[__name__])
-    replayed = 0
-    for e in common.load_known(ID):
-        if e.get('status') != 'fixed' or not (e.get('witness') or {}).get('wire_history'):
-            continue
-        oids = wire.Oids()
-        history = wire.dec(e['witness']['wire_history'], oids)
-        py = histcheck.run_history(history, oids, probe=probe)
-        out = wire.run_driver([hist.model_line(history, oids, False)])
-        eng.judge(history, oids, py, histcheck.model_steps(history, out[0]))
-        replayed += 1
+    replayed = histcheck.replay_fixed(eng, sys.modules[__name__])
     cov = eng.run(ctx.n(1000, 25000))
     cov['fixed_witnesses_replayed'] = replayed
     cov['multi_option_indexes'] = dict(option_stats)
